@@ -460,6 +460,20 @@ def round5():
         R("r5-check-args-named-ok", "C03", EQ, "        to_stop = stop_cond.check(xnew, fnew - xnew, xnew - xn)", "        dev = fnew - xnew\n        step = xnew - xn\n        to_stop = stop_cond.check(xnew, dev, step)", expect="silent"),
         R("r5-check-args-swapped", "C03", EQ, "        to_stop = stop_cond.check(xnew, fnew - xnew, xnew - xn)", "        dev = fnew - xnew\n        step = xnew - xn\n        to_stop = stop_cond.check(xnew, step, dev)", "C03-A"),
         R("r5-check-args-swapped-root", "C03", RS, "        to_stop = stop_cond.check(xnew, ynew, dx)", "        to_stop = stop_cond.check(xnew, dx, ynew)", "C03-A"),
+        # C05-T on symbolic axes
+        R("r5-take-sliceobj-ok", "C05", "xitorch/_impls/linalg/symeig.py", "    if mode == \"lowest\":\n        eival = eival[..., :neig]\n        eivec = eivec[..., :neig]\n    else:  # uppest\n        eival = eival[..., -neig:]\n        eivec = eivec[..., -neig:]\n    return eival, eivec",
+          "    take = slice(None, neig) if mode == \"lowest\" else slice(-neig, None)\n    return eival[..., take], eivec[..., take]", expect="silent"),
+        R("r5-take-topk-flip-ok", "C05", "xitorch/_impls/linalg/symeig.py", "    if mode == \"lowest\":\n        eival = eival[..., :neig]\n        eivec = eivec[..., :neig]\n    else:  # uppest\n        eival = eival[..., -neig:]\n        eivec = eivec[..., -neig:]\n    return eival, eivec",
+          "    largest = mode != \"lowest\"\n    eival, idx = torch.topk(eival, neig, dim=-1, largest=largest)\n    if largest:\n        eival = eival.flip(-1)\n        idx = idx.flip(-1)\n"
+          "    idx = idx.unsqueeze(-2).expand(*eivec.shape[:-1], neig)\n    return eival, torch.gather(eivec, -1, idx)", expect="silent"),
+        R("r5-take-topk-descending", "C05", "xitorch/_impls/linalg/symeig.py", "    if mode == \"lowest\":\n        eival = eival[..., :neig]\n        eivec = eivec[..., :neig]\n    else:  # uppest\n        eival = eival[..., -neig:]\n        eivec = eivec[..., -neig:]\n    return eival, eivec",
+          "    eival, idx = torch.topk(eival, neig, dim=-1, largest=(mode != \"lowest\"))\n    idx = idx.unsqueeze(-2).expand(*eivec.shape[:-1], neig)\n    return eival, torch.gather(eivec, -1, idx)", "C05-T"),
+        R("r5-take-vectors-unpaired", "C05", "xitorch/_impls/linalg/symeig.py", "        eival = eival[..., -neig:]\n        eivec = eivec[..., -neig:]", "        eival = eival[..., -neig:]\n        eivec = eivec[..., -neig:].flip(-1)", "C05-T"),
+        R("r5-davidson-merged-exit-ok", "C05", "xitorch/_impls/linalg/symeig.py", "        if max_resid < min_eps:\n            break\n        if AV.shape[-1] == AV.shape[-2]:\n            break", "        if min_eps > max_resid or AV.shape[-2] == AV.shape[-1]:\n            break", expect="silent"),
+        R("r5-davidson-infnorm-ok", "C05", "xitorch/_impls/linalg/symeig.py", "        max_resid = resid.abs().max()", "        max_resid = torch.linalg.vector_norm(resid, ord=float(\"inf\"))", expect="silent"),
+        R("r5-davidson-2norm", "C05", "xitorch/_impls/linalg/symeig.py", "        max_resid = resid.abs().max()", "        max_resid = torch.linalg.vector_norm(resid, ord=2)", "C05-D"),
+        R("r5-tallqr-solve-triangular-ok", "C05", "xitorch/_utils/tensor.py", "    Rinv = torch.inverse(R)  # (*BMV, nguess, nguess)\n    Q = torch.matmul(V, Rinv)", "    Q = torch.linalg.solve_triangular(R, V, upper=True, left=False)", expect="silent"),
+        R("r5-tallqr-solve-triangular-left", "C05", "xitorch/_utils/tensor.py", "    Rinv = torch.inverse(R)  # (*BMV, nguess, nguess)\n    Q = torch.matmul(V, Rinv)", "    Q = torch.linalg.solve_triangular(R, V.transpose(-2, -1), upper=True, left=True).transpose(-2, -1)", "C05-Q"),
         # class tokens: table-driven dispatch
         R("r5-dispatch-table-ok", "C09", PF, "        if isinstance(obj, EditableModule):\n            return EditableModulePureFunction(obj, fcn)\n        elif isinstance(obj, torch.nn.Module):\n            return TorchNNPureFunction(obj, fcn)\n        else:\n            raise RuntimeError(errmsg)",
           "        for objtype, wrapper in ((EditableModule, EditableModulePureFunction), (torch.nn.Module, TorchNNPureFunction)):\n            if isinstance(obj, objtype):\n                return wrapper(obj, fcn)\n        raise RuntimeError(errmsg)", expect="silent"),
